@@ -168,6 +168,37 @@ CLAIMS['C12'] = dict(
         'with scripted draws (grid + extremes z=+-8.3, +-5e-324, 0; u=0, 2^-53, 1-2^-53), boundaries, cell edges, poles, scales 1e-12..1e+12 widths.',
    design='3/C12', note=TB + '; numpy range guarantees of arccos/arctan2/clip trusted; one recorded finding (bounded-eigenvector-corner-stall)')
 
+CLAIMS['C02'] = dict(
+   technique='Lean 4 proof (rejection-loop HasSum, cell pre-images and telescoping for every base CDF, cache-coherence invariant over all query/scale histories, algebraic symmetry/ratio laws; Mathlib single modules) + correspondence fed with scipy values + push-forward quadrature search',
+   text='33 theorems over EpsieModel/Density.lean (C02_rejection_normalises, C02_step_cells, C02_discrete_cells_telescope, C02_normal_discrete_symmetric/_eq_true, '
+        'C02_bounded_discrete_eq_true/_accept (successive off and on, every F), C02_cache_coherent(_from) + C02_shared_cache_counterexample, C02_normal(_full)_symmetric, '
+        'C02_bounded_normal_accept_iff/_eq_true/_ratio, C02_angular_*, C02_vmf_symmetric/_cdf_inverse/_eq_true_partial, C02_rotmat_orthogonal/_maps_pole, '
+        'C02_eigen_symmetric, C02_chord_distance, C02_bounded_eigen_ratio_partial, C02_bounded_eigen_band_counterexample, C02_birth_param_*, C02_symmetric_flags by '
+        'decide on the regenerated families table). Partial: what scipy norm/truncnorm mean in terms of F and g, the monotone change of variables of the '
+        'continuous families and rotation invariance of solid angle are definitions, not theorems; the BoundedEigenvector chord (ConvexHull) is not modelled. '
+        'Real logpdf is compared with the model formula fed with scipy\'s values for the arguments the model asks for (cells, truncation points, per-parameter '
+        'scales, cache hits/misses one for one); the real jump()/birth is pushed forward on quantile grids (N = 2e4 quick, up to 1e6 thorough) with explicit '
+        'error bounds; two recorded findings on the BoundedEigenvector tolerance band.',
+   design='3/C02', note=TB + '; scipy CDF/pdf values and numpy Generator laws trusted')
+CLAIMS['C13'] = dict(
+   technique='Lean 4 proof (gain positivity over R with rpow, per-update direction and whole-window monotonicity, freeze after the window for all later histories from the proposal clock) + correspondence with numpy gains as checked oracles + long forced-history search',
+   text='C13_gain_pos_at / _veitch(_decay) / _exact_*, per-update direction theorems for Veitch, Sivia-Skilling, Andrieu-Thoms (global/componentwise), adaptive '
+        'eigenvector and vMF, sustained one-sided histories, C13_window_exact, C13_no_update_without_jump, C13_one_update_per_clock_tick, '
+        'C13_frozen_after_window(_jump_interval), C13_fixed_kernel, C13_own_history_only over EpsieModel/Adapt.lean wrapped around the clock of '
+        'EpsieModel/Proposal.lean. Widening/narrowing for the Andrieu-Thoms and eigenvector families is a statement about the global factor lambda; the '
+        'Sivia-Skilling family is exempt from the stop clause. All 16 adaptive classes are driven through forced histories (always accept / reject / '
+        'alternating / random; start steps, jump intervals 1 and 3) and compared step by step with the model fed with numpy\'s gains (enclosure checked).',
+   design='3/C13', note=TB + '; float gains have the sign and enclosure of the exact values (checked by the driver on every oracle value used)')
+CLAIMS['C14'] = dict(
+   technique='Lean 4 proof (exact-arithmetic admissibility invariants and bounds for all histories; retry-loop bound; negative results forced by the proofs) + correspondence + draws-per-jump search on flat/needle bounded targets; recorded findings',
+   text='C14_retry_bound(_monotone,_scale), C14_accept_mass_le, C14_ss_bounded / _never_raises, C14_veitch_bounded / _gain_le / _pos_partial, C14_at_loglambda_bounded, '
+        'C14_at_shape_admissible / _scale_admissible, C14_eig_cov_admissible, C14_vmf_kappa_pos / _logkappa_step and the vMF no-raise statements, '
+        'C14_window_gain_ge, and the negative results C14_at_stall_exact / C14_at_stall_witness (log lambda >= 1.5 T^0.4 - 10/3 under always-accept). Partial: '
+        'IEEE overflow enters only as an explicit representability predicate. Real runs on flat and sharply peaked bounded targets (beta in {0, 1e-3, 1}, '
+        'adaptation durations 30..3e4, all adaptive classes, boundary starts) record scale attributes, exceptions and generator draws per jump; the '
+        'uncapped Andrieu-Thoms scale on bounded domains and the bounded-eigenvector corner start are recorded findings.',
+   design='3/C14', note=TB + '; Phi symmetric and concave on [0,inf) assumed for the retry bound; four recorded findings')
+
 NOT_YET = {}
 
 def main():
